@@ -61,6 +61,102 @@ def accepted_program(rng, nslots):
     return b''.join(out)
 
 
+def near_miss(rng, p):
+    """an accepted program with exactly one verifier rule broken: the verifier must refuse it (and, if a changed
+    verifier lets it through, running it shows what the refusal was protecting the interpreter from)"""
+    import struct
+    n = len(p) // 8
+    ins = [list(struct.unpack('<BBhi', p[8 * k:8 * k + 8])) for k in range(n)]       # opc, regs, off, imm
+    second = {k + 1 for k in range(n) if ins[k][0] == 0x18}
+    starts = [k for k in range(n) if k not in second]
+    def is_jump(k):
+        o = ins[k][0]
+        return k not in second and ((o == 0x05) or ((o & 7) in (5, 6) and o not in (0x85, 0x95)))
+    lcalls = [k for k in starts if ins[k][0] == 0x85 and (ins[k][1] >> 4) == 1]
+    jumps = [k for k in starts if is_jump(k)]
+    wides = [k for k in starts if ins[k][0] == 0x18]
+    kinds = ['last', 'src', 'opcode', 'callkind', 'tail']
+    if lcalls:
+        kinds += ['call-wrap', 'call-wrap', 'call-wrap', 'call-out', 'call-neg']
+        if wides:
+            kinds += ['call-mid']
+    if jumps:
+        kinds += ['jump-out', 'jump-neg', 'jump-self']
+        if wides:
+            kinds += ['jump-mid']
+    alus = [k for k in starts if (ins[k][0] & 7) in (4, 7, 0, 1) and ins[k][0] not in (0x18,)]
+    if alus:
+        kinds += ['dst10']
+    ends = [k for k in starts if ins[k][0] in (0xd4, 0xdc)]
+    if ends:
+        kinds += ['endian']
+    xadds = [k for k in starts if ins[k][0] in (0xc3, 0xdb)]
+    if xadds:
+        kinds += ['xadd-imm']
+    if wides:
+        kinds += ['wide-second']
+    kind = rng.choice(kinds)
+    if kind == 'last':
+        ins[n - 1] = [0xb7, 0, 0, 0] if (n - 1) not in second else ins[n - 1]
+        if (n - 1) in second:
+            return None
+    elif kind == 'src':
+        k = rng.choice(starts); ins[k][1] = (ins[k][1] & 0x0f) | ((11 + rng.below(5)) << 4)
+        if ins[k][0] == 0x85:
+            return None
+    elif kind == 'opcode':
+        k = rng.choice(starts[:-1] or starts)
+        if ins[k][0] == 0x18:
+            return None
+        ins[k][0] = rng.choice([o for o in range(256) if o not in SUPPORTED and o != 0 and o != 0x8d])
+    elif kind == 'callkind':
+        k = rng.choice(starts[:-1] or starts)
+        if ins[k][0] == 0x18:
+            return None
+        ins[k][0] = 0x85; ins[k][1] = (ins[k][1] & 0x0f) | ((2 + rng.below(9)) << 4)
+    elif kind == 'tail':
+        k = rng.choice(starts[:-1] or starts)
+        if ins[k][0] == 0x18:
+            return None
+        ins[k][0] = 0x8d
+    elif kind == 'call-wrap':                                   # same low 16 bits, different real target
+        k = rng.choice(lcalls)
+        m = rng.choice([1, -1, 2, -2, 0x7fff, -0x8000]) * 65536
+        v = ins[k][3] + m
+        if not -2 ** 31 <= v < 2 ** 31:
+            return None
+        t = k + 1 + v
+        if 0 <= t < n and t not in second:
+            return None
+        ins[k][3] = v
+    elif kind == 'call-out':
+        k = rng.choice(lcalls); ins[k][3] = n - (k + 1) + rng.choice([0, 1, 7, 70000])
+    elif kind == 'call-neg':
+        k = rng.choice(lcalls); ins[k][3] = -(k + 2) - rng.choice([0, 1, 70000])
+    elif kind == 'call-mid':
+        k = rng.choice(lcalls); ins[k][3] = rng.choice(wides) + 1 - (k + 1)
+    elif kind == 'jump-out':
+        k = rng.choice(jumps); ins[k][2] = n - (k + 1) + rng.choice([0, 1, 7])
+    elif kind == 'jump-neg':
+        k = rng.choice(jumps); ins[k][2] = -(k + 2) - rng.choice([0, 1])
+    elif kind == 'jump-self':
+        k = rng.choice(jumps); ins[k][2] = -1
+    elif kind == 'jump-mid':
+        k = rng.choice(jumps); ins[k][2] = rng.choice(wides) + 1 - (k + 1)
+    elif kind == 'dst10':
+        k = rng.choice(alus); ins[k][1] = (ins[k][1] & 0xf0) | (10 + rng.below(6))
+    elif kind == 'endian':
+        k = rng.choice(ends); ins[k][3] = rng.choice([0, 8, 24, 48, 128, -16])
+    elif kind == 'xadd-imm':
+        k = rng.choice(xadds); ins[k][3] = rng.choice([1, -1, 0x10])
+    elif kind == 'wide-second':
+        k = rng.choice(wides); ins[k + 1][0] = rng.choice([0xb7, 0x95, 0x18])
+    try:
+        return kind, b''.join(struct.pack('<BBhi', *i) for i in ins)
+    except struct.error:
+        return None
+
+
 def gen_cases(chk):
     rng = vlib.Rng(chk.seed).fork('C05')
     thorough = chk.tier == 'thorough'
@@ -73,6 +169,13 @@ def gen_cases(chk):
             continue
         cases.append(Case(p, mem=pk if rng.chance(3, 4) else b'', mbuff=mb if rng.chance(1, 2) else b'',
                           helpers=[(1, 'mix'), (2, 'clobber')], budget=200, fam='random-accepted'))
+    # one rule broken: refused by the model's verifier, so the real one must refuse it too
+    for _ in range(12000 if thorough else 1500):
+        p = accepted_program(rng, 2 + rng.below(24))
+        nm = near_miss(rng, p) if p is not None else None
+        if nm is None:
+            continue
+        cases.append(Case(nm[1], mem=pk, mbuff=mb, helpers=[(1, 'mix'), (2, 'clobber')], budget=200, fam='near-miss:' + nm[0]))
     # directed: the arithmetic that used to overflow
     cases.append(Case(B.lddw(1, 2 ** 63) + B.alu('neg', 1) + B.movr(0, 1) + B.EXIT, fam='neg64-min'))
     cases.append(Case(B.lddw(4, 2 ** 64 - 1) + B.ldind('b', 4, 1) + B.EXIT, mem=pk, fam='ldind-wrap'))
